@@ -186,6 +186,11 @@ class Core:
         tagged = [(i, _mentions(p)) for i, p in enumerate(st.pc)]
         outside = self.impossible(st, fp(ref), 1500)
         drop = EV_SYMS if outside else HEAP_IMPLICIT
+        # the shape predicates of check trees read only the fields a tree is made of: a write to any other field (a slot
+        # of the enforcer, a cache entry, ...) cannot change them
+        SHAPE, SHAPE_FIELDS = {'wf_tree', 'tree_height', 'pr'}, {'rules', 'rule', 'kind', 'match', '$val'}
+        if field not in SHAPE_FIELDS:
+            drop = set(drop) - SHAPE
         keep = [p for (i, m), p in zip(tagged, st.pc) if not (m & drop)]
         if len(keep) != len(st.pc):
             st.pc[:] = keep
@@ -207,8 +212,9 @@ class Core:
             if not (m & HEAP_IMPLICIT):
                 keep.append(p)
                 continue
-            if not ((m & HEAP_IMPLICIT) - set(preserves)) and not _has_quant(p):
-                # quantifier-free facts that speak only about predicates the callee preserves stay true
+            if not ((m & HEAP_IMPLICIT) - set(preserves)):
+                # facts that speak only about predicates the callee preserves stay true (instance by instance for a
+                # quantified one: preservation holds for every value)
                 keep.append(p)
                 continue
             changed = True
@@ -294,6 +300,17 @@ class Core:
     def truth(self, st, v):
         if isinstance(v, Static):
             return z3.BoolVal(True)
+        if z3.is_app(v) and v.decl().kind() == z3.Z3_OP_ITE and getattr(self, '_truth_depth', 0) < 4:
+            # truthiness distributes over a conditional value (d.get(k) is "None if absent else the entry"): the
+            # recursive definition of truthy is not unfolded through an if-then-else by the solver
+            c, a, b = v.children()
+            self._truth_depth = getattr(self, '_truth_depth', 0) + 1
+            try:
+                return z3.simplify(z3.If(c, self.truth(st, a), self.truth(st, b)))
+            finally:
+                self._truth_depth -= 1
+        if z3.is_app(v) and v.decl().kind() == z3.Z3_OP_DT_CONSTRUCTOR and v.decl().name() in ('none', 'absent'):
+            return z3.BoolVal(False)
         if self.known(st, V.is_bool(v)) is True:
             return V.b(v)
         if self.known(st, V.is_dict(v)) is not False and not (z3.is_app(v) and v.decl().kind() == z3.Z3_OP_DT_CONSTRUCTOR
